@@ -543,3 +543,312 @@ func zzC20dFlushBarrier() {
 	conn.Close(ctx)
 	vf.Reach("end")
 }
+
+type zzHooks struct {
+	sent  []UpstreamChunk
+	acked []UpstreamChunkResult
+}
+
+func (h *zzHooks) HookBefore(id uuid.UUID, c UpstreamChunk)      { h.sent = append(h.sent, c) }
+func (h *zzHooks) HookAfter(id uuid.UUID, r UpstreamChunkResult) { h.acked = append(h.acked, r) }
+
+// C01.e: a whole upstream life on a real Conn: open, a bounded write/flush history, acknowledged by
+// the broker (immediately or in one batch at the end, with or without data-id alias assignment),
+// Close. The broker must have received exactly what was written, in chunks numbered 1..N, the close
+// request must report N and the point total, hooks fire once per chunk, nothing follows the close request.
+func zzC01eEndToEnd() {
+	b := zzNewBroker()
+	zzServeStreams(b)
+	base := b.handler
+	batchAcks := vf.Choose("broker.acks.in.one.batch", 2) == 1
+	assignAliases := vf.Choose("broker.assigns.aliases", 2) == 1
+	var pending []*message.UpstreamChunkResult
+	nextAlias := uint32(100)
+	var closeReq *message.UpstreamCloseRequest
+	chunksAfterClose := 0
+	b.handler = func(t *zzTr, m message.Message) bool {
+		switch r := m.(type) {
+		case *message.UpstreamChunk:
+			if closeReq != nil {
+				chunksAfterClose++
+			}
+			res := &message.UpstreamChunkResult{SequenceNumber: r.StreamChunk.SequenceNumber, ResultCode: message.ResultCodeSucceeded, ResultString: "ok"}
+			aliases := map[uint32]*message.DataID{}
+			if assignAliases {
+				for _, id := range r.DataIDs {
+					nextAlias++
+					aliases[nextAlias] = id
+				}
+			}
+			if batchAcks {
+				pending = append(pending, res)
+				if len(aliases) > 0 {
+					t.in <- zzEncode(&message.UpstreamChunkAck{StreamIDAlias: r.StreamIDAlias, DataIDAliases: aliases})
+				}
+			} else {
+				t.in <- zzEncode(&message.UpstreamChunkAck{StreamIDAlias: r.StreamIDAlias, Results: []*message.UpstreamChunkResult{res}, DataIDAliases: aliases})
+			}
+			return true
+		case *message.UpstreamCloseRequest:
+			closeReq = r
+		}
+		return base(t, m)
+	}
+	conn := zzConnect(b)
+	tr := b.last()
+	ctx := context.Background()
+	hooks := &zzHooks{}
+	var policy UpstreamOption
+	switch vf.Choose("policy", 3) {
+	case 0:
+		policy = WithUpstreamFlushPolicyNone()
+	case 1:
+		policy = WithUpstreamFlushPolicyImmediately()
+	default:
+		policy = WithUpstreamFlushPolicyBufferSizeOnly(1)
+	}
+	up, err := conn.OpenUpstream(ctx, "session", policy, WithUpstreamQoS(message.QoSReliable),
+		WithUpstreamReceiveAckHooker(hooks), WithUpstreamSendDataPointsHooker(hooks), WithUpstreamCloseTimeout(time.Second))
+	vf.Assume(err == nil)
+	vf.Settle()
+	// write history: 3 writes over 2 data ids, symbolic payload bytes, one explicit Flush in between
+	idA, idB := &message.DataID{Name: "a", Type: "t"}, &message.DataID{Name: "b", Type: "t"}
+	type written struct {
+		id string
+		b  byte
+	}
+	var all []written
+	write := func(id *message.DataID, label string, n int) {
+		var dps []*message.DataPoint
+		for i := 0; i < n; i++ {
+			v := vf.U8(label + string(rune('0'+i)))
+			dps = append(dps, &message.DataPoint{ElapsedTime: time.Duration(len(all) + 1), Payload: []byte{v}})
+			all = append(all, written{id.Name, v})
+		}
+		vf.Assert("write-accepted", up.WriteDataPoints(ctx, id, dps...) == nil)
+		vf.Settle()
+	}
+	write(idA, "w1", 2)
+	write(idB, "w2", 1)
+	if vf.Choose("flush.in.between", 2) == 1 {
+		vf.Assert("flush-ok", up.Flush(ctx) == nil)
+		vf.Settle()
+	}
+	write(idA, "w3", 1)
+	if batchAcks {
+		// the broker acknowledges everything received so far in one (reordered) batch when the stream drains
+		go func() {
+			for i := 0; i < 20; i++ {
+				vf.Settle()
+				if len(pending) > 0 {
+					var rs []*message.UpstreamChunkResult
+					for j := len(pending) - 1; j >= 0; j-- {
+						rs = append(rs, pending[j])
+					}
+					pending = nil
+					tr.push(&message.UpstreamChunkAck{StreamIDAlias: 1, Results: rs})
+				}
+			}
+		}()
+	}
+	cerr := up.Close(ctx)
+	vf.Settle()
+	vf.Assert("close-ok", cerr == nil)
+	chunks := zzUpstreamChunksOf(tr)
+	n := len(chunks)
+	vf.Assert("at-least-one-chunk", n >= 1)
+	total := 0
+	var got []written
+	aliasTable := map[uint32]string{}
+	for i, c := range chunks {
+		vf.Assert("chunks-numbered-1-to-N-in-order", c.StreamChunk.SequenceNumber == uint32(i+1))
+		vf.Assert("no-empty-chunk", len(c.StreamChunk.DataPointGroups) > 0)
+		for _, g := range c.StreamChunk.DataPointGroups {
+			name := ""
+			switch v := g.DataIDOrAlias.(type) {
+			case *message.DataID:
+				name = v.Name
+			case message.DataIDAlias:
+				name = aliasTable[uint32(v)]
+				vf.Assert("alias-was-assigned-by-the-broker", name != "")
+			}
+			for _, p := range g.DataPoints {
+				vf.Assert("payload-length-kept", len(p.Payload) == 1)
+				if len(p.Payload) == 1 {
+					got = append(got, written{name, p.Payload[0]})
+				}
+				total++
+			}
+		}
+		if assignAliases {
+			// the broker's assignment order mirrors the handler above
+			for _, id := range c.DataIDs {
+				_ = id
+			}
+		}
+		// rebuild the alias table the way the broker handed it out
+		if assignAliases {
+			for _, id := range c.DataIDs {
+				na := uint32(101 + len(aliasTable))
+				aliasTable[na] = id.Name
+			}
+		}
+	}
+	vf.Assert("point-total", total == len(all))
+	// per data id: exactly the written payloads in order
+	for _, name := range []string{"a", "b"} {
+		var w, g []byte
+		for _, x := range all {
+			if x.id == name {
+				w = append(w, x.b)
+			}
+		}
+		for _, x := range got {
+			if x.id == name {
+				g = append(g, x.b)
+			}
+		}
+		vf.Assert("per-id-count", len(w) == len(g))
+		for i := range w {
+			if i < len(g) {
+				vf.Assert("per-id-order-and-payload", w[i] == g[i])
+			}
+		}
+	}
+	vf.Assert("close-request-sent-once", closeReq != nil)
+	if closeReq != nil {
+		vf.Assert("close-request-totals", closeReq.FinalSequenceNumber == uint32(n) && closeReq.TotalDataPoints == uint64(len(all)) && closeReq.StreamID == up.ID)
+	}
+	vf.Assert("no-chunk-after-close-request", chunksAfterClose == 0)
+	vf.Assert("send-hook-once-per-chunk", len(hooks.sent) == n)
+	vf.Assert("ack-hook-once-per-chunk", len(hooks.acked) == n)
+	for i := range hooks.sent {
+		if i < n {
+			cnt := 0
+			for _, g := range hooks.sent[i].DataPointGroups {
+				cnt += len(g.DataPoints)
+			}
+			wire := 0
+			for _, g := range chunks[i].StreamChunk.DataPointGroups {
+				wire += len(g.DataPoints)
+			}
+			vf.Assert("send-hook-reports-what-was-sent", hooks.sent[i].SequenceNumber == chunks[i].StreamChunk.SequenceNumber && cnt == wire)
+		}
+	}
+	seen := map[uint32]int{}
+	for _, r := range hooks.acked {
+		seen[r.SequenceNumber]++
+		vf.Assert("ack-hook-has-the-brokers-code", r.ResultCode == message.ResultCodeSucceeded && r.ResultString == "ok")
+	}
+	for i := 1; i <= n; i++ {
+		vf.Assert("each-result-reported-once", seen[uint32(i)] == 1)
+	}
+	conn.Close(ctx)
+	vf.Reach("end")
+}
+
+// C04.e / C03: a whole downstream life on a real Conn: the broker sends chunks (full forms first,
+// then the aliases the client announced), the application reads them; acks go out on the flush
+// interval and at Close. Every consumed chunk is acknowledged exactly once with its upstream's stream
+// id and sequence number, ack ids count from 1, each upstream / data id is announced once under one
+// alias, and the last acks precede the close request.
+func zzC04eDownstreamLife() {
+	b := zzNewBroker()
+	zzServeStreams(b)
+	conn := zzConnect(b)
+	tr := b.last()
+	ctx := context.Background()
+	down, err := conn.OpenDownstream(ctx, []*message.DownstreamFilter{{SourceNodeID: "node", DataFilters: []*message.DataFilter{{Name: "#", Type: "#"}}}},
+		WithDownstreamAckFlushInterval(50*time.Millisecond))
+	vf.Assume(err == nil)
+	vf.Settle()
+	var alias uint32
+	for _, m := range tr.msgs() {
+		if r, ok := m.(*message.DownstreamOpenRequest); ok {
+			alias = r.DesiredStreamIDAlias
+		}
+	}
+	upA := &message.UpstreamInfo{SessionID: "sa", SourceNodeID: "node", StreamID: zzStreamID1}
+	idX := &message.DataID{Name: "x", Type: "t"}
+	s1, s2, s3 := uint32(7), uint32(8), uint32(4000000000) // (symbolic numbers would be forked per varint byte by the real codec)
+	pay := vf.U8("payload")
+	// chunk 1: everything in full form
+	tr.push(&message.DownstreamChunk{StreamIDAlias: alias, UpstreamOrAlias: upA, StreamChunk: &message.StreamChunk{SequenceNumber: s1,
+		DataPointGroups: []*message.DataPointGroup{{DataIDOrAlias: idX, DataPoints: []*message.DataPoint{{ElapsedTime: 1, Payload: []byte{pay}}}}}}})
+	vf.Settle()
+	c1, e1 := down.ReadDataPoints(ctx)
+	vf.Assert("chunk1-read", e1 == nil && c1 != nil && c1.SequenceNumber == s1 && *c1.UpstreamInfo == *upA && len(c1.DataPointGroups) == 1 && *c1.DataPointGroups[0].DataID == *idX)
+	// the ack interval elapses: the first ack announces the aliases
+	vf.Advance(50 * time.Millisecond)
+	acks := func() []*message.DownstreamChunkAck {
+		var out []*message.DownstreamChunkAck
+		for _, m := range tr.msgs() {
+			if a, ok := m.(*message.DownstreamChunkAck); ok {
+				out = append(out, a)
+			}
+		}
+		return out
+	}
+	as := acks()
+	vf.Assert("first-ack-after-interval", len(as) == 1)
+	if len(as) != 1 {
+		return
+	}
+	a1 := as[0]
+	vf.Assert("ack-id-starts-at-1", a1.AckID == 1 && a1.StreamIDAlias == alias)
+	vf.Assert("result-for-chunk1", len(a1.Results) == 1 && a1.Results[0].SequenceNumberInUpstream == s1 && a1.Results[0].StreamIDOfUpstream == zzStreamID1)
+	vf.Assert("one-upstream-alias-announced", len(a1.UpstreamAliases) == 1)
+	vf.Assert("one-data-id-alias-announced", len(a1.DataIDAliases) == 1)
+	var upAlias, idAlias uint32
+	for k, v := range a1.UpstreamAliases {
+		upAlias = k
+		vf.Assert("announced-upstream-is-the-one-seen", *v == *upA && k != 0)
+	}
+	for k, v := range a1.DataIDAliases {
+		idAlias = k
+		vf.Assert("announced-data-id-is-the-one-seen", *v == *idX && k != 0)
+	}
+	// chunk 2: the broker switches to the aliases; chunk 3: still sends the full forms again
+	tr.push(&message.DownstreamChunk{StreamIDAlias: alias, UpstreamOrAlias: message.UpstreamAlias(upAlias), StreamChunk: &message.StreamChunk{SequenceNumber: s2,
+		DataPointGroups: []*message.DataPointGroup{{DataIDOrAlias: message.DataIDAlias(idAlias), DataPoints: []*message.DataPoint{{ElapsedTime: 2, Payload: []byte{pay}}}}}}})
+	upA2 := &message.UpstreamInfo{SessionID: "sa", SourceNodeID: "node", StreamID: zzStreamID1}
+	tr.push(&message.DownstreamChunk{StreamIDAlias: alias, UpstreamOrAlias: upA2, StreamChunk: &message.StreamChunk{SequenceNumber: s3,
+		DataPointGroups: []*message.DataPointGroup{{DataIDOrAlias: &message.DataID{Name: "x", Type: "t"}, DataPoints: []*message.DataPoint{{ElapsedTime: 3}}}}}})
+	vf.Settle()
+	c2, e2 := down.ReadDataPoints(ctx)
+	c3, e3 := down.ReadDataPoints(ctx)
+	vf.Assert("chunk2-resolved-through-aliases", e2 == nil && c2 != nil && c2.SequenceNumber == s2 && *c2.UpstreamInfo == *upA && *c2.DataPointGroups[0].DataID == *idX &&
+		len(c2.DataPointGroups[0].DataPoints) == 1 && c2.DataPointGroups[0].DataPoints[0].Payload[0] == pay)
+	vf.Assert("chunk3-full-form-again", e3 == nil && c3 != nil && c3.SequenceNumber == s3 && *c3.UpstreamInfo == *upA)
+	// close without waiting for the interval: the pending results must go out before the close request
+	cerr := down.Close(ctx)
+	vf.Settle()
+	vf.Assert("close-ok", cerr == nil)
+	as = acks()
+	vf.Assert("second-ack-at-close", len(as) == 2)
+	if len(as) == 2 {
+		a2 := as[1]
+		vf.Assert("ack-ids-increase-by-one", a2.AckID == 2)
+		vf.Assert("results-for-chunk2-and-3-once-in-order", len(a2.Results) == 2 && a2.Results[0].SequenceNumberInUpstream == s2 && a2.Results[1].SequenceNumberInUpstream == s3 &&
+			a2.Results[0].StreamIDOfUpstream == zzStreamID1 && a2.Results[1].StreamIDOfUpstream == zzStreamID1)
+		vf.Assert("no-alias-announced-twice", len(a2.UpstreamAliases) == 0 && len(a2.DataIDAliases) == 0)
+	}
+	// order on the wire: last ack before the close request, nothing of the stream after it
+	ackPos, closePos, after := -1, -1, 0
+	for i, m := range tr.msgs() {
+		switch m.(type) {
+		case *message.DownstreamChunkAck:
+			ackPos = i
+			if closePos >= 0 {
+				after++
+			}
+		case *message.DownstreamCloseRequest:
+			closePos = i
+		}
+	}
+	vf.Assert("final-ack-before-close-request", closePos >= 0 && ackPos >= 0 && ackPos < closePos && after == 0)
+	_, e4 := down.ReadDataPoints(ctx)
+	vf.Assert("read-after-close-is-stream-closed", e4 != nil && errors.Is(e4, errors.ErrStreamClosed))
+	conn.Close(ctx)
+	vf.Reach("end")
+}
